@@ -183,7 +183,35 @@ for _ in range(N):
     case("period_when", f"(trig_period_when 100000 {li(snap_t)} {li(pd_)} {li(pend_)} {'true' if imm_ else 'false'} {lnx}).map "
                         f"(fun r => (if r.1 then (1000000000 : Int) else 0) + (match r.2 with | some x => x | none => -1))", "shI", period_when)
 
-HEAD = """import Demeter.Gen.PyTrigger
+    # ---- squeeth liquidation / vault-safety arithmetic (a SqueethMarket object with the TWAP and the effective collateral stubbed)
+    from demeter.squeeth.market import SqueethMarket
+    from demeter.squeeth import Vault, VaultKey
+    sq = SqueethMarket.__new__(SqueethMarket)
+    o_price, w_price = rand_dec(-3, 2, 8), rand_dec(-1, 5, 8)
+    sq.get_twap_price = lambda tok, now=None: o_price if tok.name.upper().startswith("O") else w_price
+    mx, sh, co = rand_dec(-2, 6, 9), rand_dec(-2, 6, 9), rng.choice([rand_dec(-2, 6, 9), Decimal("0.5"), Decimal(0)])
+    case("sq_single", f"sq_get_single_liquidation_amount NumCtx.py {lr(o_price)} {lr(mx)} {lr(sh)}", "shRR", lambda: sq._get_single_liquidation_amount(mx, sh))
+    case("sq_liq_result", f"sq_get_liquidation_result NumCtx.py {lr(o_price)} {lr(mx)} {lr(sh)} {lr(co)}", "shRR", lambda: sq._get_liquidation_result(mx, sh, co))
+    ne, no, pb = rand_dec(-2, 4, 8), rng.choice([rand_dec(-2, 6, 9), sh, sh * 2]), rng.random() < 0.6
+
+    def sq_reduce():
+        v = Vault(7, co, sh, 3)
+        b_, x_, bo_ = sq._get_reduce_debt_result_in_vault(v, ne, no, pb)
+        assert v.uni_nft_id is None
+        return (b_, x_, bo_, v.osqth_short_amount, v.collateral_amount)
+    case("sq_reduce_debt", f"(sq_get_reduce_debt_result_in_vault NumCtx.py {lr(o_price)} {lr(sh)} {lr(co)} (some 3) {lr(ne)} {lr(no)} {'true' if pb else 'false'}).map "
+                           f"(fun r => s!\"({{rs r.1.1}}, {{rs r.1.2.1}}, {{rs r.1.2.2}}, {{rs r.2.1}}, {{rs r.2.2.1}})\")", "shS", sq_reduce)
+    tot, nf_ = rng.choice([rand_dec(-2, 6, 9), Decimal("0.5"), Decimal("0.4999")]), rand_dec(-1, 0, 6)
+    sh2 = rng.choice([sh, Decimal(0)])
+    sq.vault = {VaultKey(7): Vault(7, co, sh2, None)}
+    sq._get_effective_collateral_in_eth = lambda vk, nf=None, p_=None: tot
+    given = rng.choice([None, rand_dec(-1, 5, 8)])
+    lgiven = "none" if given is None else f"(some {lr(given)})"
+    case("sq_vault_status", f"(sq_get_vault_status NumCtx.py {lr(w_price)} {lr(sh2)} {lr(tot)} {lr(nf_)} {lgiven}).map (fun r => (if r.1 then (10 : Int) else 0) + (if r.2 then 1 else 0))",
+         "shI", lambda: (lambda r: 10 * int(r[0]) + int(r[1]))(sq.get_vault_status(VaultKey(7), nf_, given)))
+
+HEAD = """import Demeter.Gen.PySqueethMarket
+import Demeter.Gen.PyTrigger
 import Demeter.Gen.PyBrokerTyping
 import Demeter.Gen.PyLiquitidyMath
 import Demeter.Gen.PyAaveCore
@@ -197,6 +225,7 @@ def rs (v : Rat) : String := s!"{v.num}/{v.den}"
 def shI : Except Err Int → String | .ok v => s!"ok {v}" | .error e => "err " ++ shErr e
 def shR : Except Err Rat → String | .ok v => "ok " ++ rs v | .error e => "err " ++ shErr e
 def shRR : Except Err (Rat × Rat) → String | .ok v => s!"ok ({rs v.1}, {rs v.2})" | .error e => "err " ++ shErr e
+def shS : Except Err String → String | .ok v => "ok " ++ v | .error e => "err " ++ shErr e
 def shX : Except Err XDec → String | .ok (.fin v) => "ok " ++ rs v | .ok .inf => "ok inf" | .error e => "err " ++ shErr e
 """
 
